@@ -6,6 +6,7 @@ lockstep, the order prune(available) -> build -> finish -> prune(all) -> return;
 (which index, which strand, under which strandedness), get_valid_exts / fix_exts keep an extension exactly when it resolves to
 an available node, sequence_of_path spells merged nodes with a K-1 overlap."""
 from .. import dt_compress, dt_tables, dt_graph
+from . import common
 
 ASSUMPTIONS = ["the input graph is valid (extensions symmetric); rows marked ⊥ are outside that precondition"]
 
@@ -21,3 +22,5 @@ def run(F, rep):
     rep.run(dt_graph.get_valid_exts_table, F, rep, "C09.6")
     rep.run(dt_graph.fix_exts_table, F, rep, "C09.6")
     rep.run(dt_graph.sequence_of_path_table, F, rep, "C09.6")
+    # re-compression identifies nodes by their terminal k-mers: Vmer::get_kmer on views of the packed store
+    rep.run(common.run_store_kmer_lemmas, F, rep, "C09.7")
